@@ -73,7 +73,9 @@ RULE = ('cases: (a) one_form: one unit, one entry, one attribute of each standar
         'of a case is of one kind drawn from tools/lib/streams.py (BytesIO, real files fresh / warm / at EOF / 16-byte '
         'buffer, mmap, gzip, decoy fileno; ~20 % non-BytesIO for one_form, ~45 % for worlds), and in ~8 % / ~45 % of the '
         'cases the second pass drops owners while their children are still queried: del DWARFInfo + gc.collect() after '
-        'list(iter_CUs()/iter_TUs()), optionally also each unit after list(iter_DIEs()). '
+        'list(iter_CUs()/iter_TUs()), optionally also each unit after list(iter_DIEs()).  (d) high_offset (2 forced cases): '
+        'a self-contained unit observed through get_CU_at at a section offset just below / at / above 2**32, behind a '
+        '64-bit-DWARF unit of ~4 GiB in a sparse real file; expected = the Coq expected results for that offset (spec_at). '
         'distinct = hash(kind, abstract); non-trivial = at least two entries or an attribute')
 
 STD_FORMS = [0x01, 0x02, 0x03, 0x04, 0x05, 0x06, 0x07, 0x08, 0x09, 0x0a, 0x0b, 0x0c, 0x0d, 0x0e, 0x0f, 0x10, 0x11, 0x12, 0x13,
@@ -417,7 +419,7 @@ def unit_abs(u):
 def world_abs(w):
     return [w['le'], [unit_abs(u) for u in w['info']], [unit_abs(u) for u in w['types']], w['abbrev'],
             w['str'], w['line_str'], w['str_offsets'], w['addr'], w['loclists'], w['rnglists'], w.get('types_absent', 0),
-            w.get('history', []), w.get('env', ['bytesio', 0])]
+            w.get('history', []), w.get('env', ['bytesio', 0]), w.get('high', 0)]
 
 
 def rnd_bytes(rng, n, nonzero=False):
@@ -746,6 +748,21 @@ def gen(ctx):
                           ctx.rng.choice([3, 10]), types_state=state, v5_type_units=ctx.rng.randint(1, 2))
             cases.append(('sig8_world', world_abs(_with_env(ctx.rng, w, 0.45))))
     g.prefer_sig8 = False
+    # offsets >= 2**32 (what 64-bit DWARF exists for): a unit placed behind a 4 GiB 64-bit-DWARF unit in a sparse real
+    # file must decode as the same unit placed low does, offsets shifted (C04_section_unit_exact is parametric in what
+    # precedes the unit).  The unit is self-contained: no section-relative or type-signature reference in it.
+    for _ in range(ctx.scale(2, 6)):
+        while True:
+            w = gen_world(g, ctx, 1, 0, ctx.rng.choice([3, 10]), types_state='empty')
+            forms = [final_form(a['form'], v) for u in w['info'] for (n, p, t) in preorder(u['root']) if not t
+                     for a, v in zip(n['decl']['attrs'], n['vals'])]
+            if 0x10 not in forms and 0x20 not in forms:
+                break
+        w['history'] = []
+        w['env'] = ['file', 0]
+        # unit_length of the unit in front: the observed unit starts a few bytes below, at or above 2**32
+        w['high'] = 2 ** 32 - 12 - 8 + ctx.rng.choice([0, 8, ctx.rng.randrange(4, 200)])
+        cases.append(('high_offset', world_abs(w)))
     return cases
 
 
@@ -781,14 +798,17 @@ def _nm(x):
 _OPEN = [lambda data, kind: io.BytesIO(data)]      # how section streams are opened: set per evaluate() to Streams().open
 
 
-def _mk_dwarfinfo(secs):
+def _mk_dwarfinfo(secs, info_desc=None):
+    """info_desc: (stream, size) to use for .debug_info instead of the bytes in secs"""
     from elftools.dwarf.dwarfinfo import DWARFInfo, DebugSectionDescriptor, DwarfConfig
     def D(name, data):
         return DebugSectionDescriptor(_OPEN[0](data, secs[10] if len(secs) > 10 else 'bytesio'), name, None, len(data), 0)
     le, info, abbrev, types, str_, line_str, str_offsets, addr, loclists, rnglists = secs[:10]
     return DWARFInfo(
         config=DwarfConfig(little_endian=bool(le), machine_arch='x64', default_address_size=8),
-        debug_info_sec=D('.debug_info', info), debug_aranges_sec=None, debug_abbrev_sec=D('.debug_abbrev', abbrev),
+        debug_info_sec=(D('.debug_info', info) if info_desc is None else
+                        DebugSectionDescriptor(info_desc[0], '.debug_info', None, info_desc[1], 0)),
+        debug_aranges_sec=None, debug_abbrev_sec=D('.debug_abbrev', abbrev),
         debug_frame_sec=None, eh_frame_sec=None, debug_str_sec=D('.debug_str', str_), debug_loc_sec=None,
         debug_ranges_sec=None, debug_line_sec=None, debug_pubtypes_sec=None, debug_pubnames_sec=None,
         debug_addr_sec=D('.debug_addr', addr), debug_str_offsets_sec=D('.debug_str_offsets', str_offsets),
@@ -1061,12 +1081,63 @@ def evaluate(ctx, cases):
     gc.collect()
     gc.freeze()
     try:
-        _evaluate(ctx, cases, S)
+        _evaluate(ctx, [c for c in cases if c[0] != 'high_offset'], S)
+        _evaluate_high(ctx, [c for c in cases if c[0] == 'high_offset'], S)
     finally:
         _OPEN[0] = saved
         S.close()
         gc.unfreeze()
         gc.collect()
+
+
+def _evaluate_high(ctx, cases, S):
+    """the first unit of the world, observed at a section offset around 2**32 behind a sparse 64-bit-DWARF unit"""
+    if not cases:
+        return
+    drv = ctx.driver
+    worlds = [a for _, a in cases]
+    secs = drv.batch([['sections', w] for w in worlds])
+    wfs = drv.batch([['wf', w] for w in worlds])
+    for (kind, w), (info, types), wf in zip(cases, secs, wfs):
+        le = bool(w[0])
+        L = w[13] if len(w) > 13 and isinstance(w[13], int) and w[13] >= 11 else 2 ** 32
+        base = 12 + L
+        order = 'little' if le else 'big'
+        front = (b'\xff\xff\xff\xff' + L.to_bytes(8, order) + (4).to_bytes(2, order) + (0).to_bytes(8, order) + b'\x08')
+        spec_u = drv.one(['spec_at', w, base])
+        opened = []
+        try:
+            path = S.path_of(b'')
+            with open(path, 'r+b') as f:          # sparse: only the two ends of the 4 GiB section are written
+                f.write(front)
+                f.seek(base)
+                f.write(bytes(info))
+            all_secs = [w[0], b'', w[3], types, w[4], w[5], w[6], w[7], w[8], w[9], 'bytesio']
+
+            def factory():
+                st = open(path, 'rb')
+                opened.append(st)
+                return _mk_dwarfinfo(all_secs, (st, base + len(info)))
+            try:
+                cu = factory().get_CU_at(base)
+                impl_u = _impl_unit(factory, 1, [cu], False)
+            except Exception as e:
+                impl_u = _err(e)
+        finally:
+            for st in opened:
+                st.close()
+            S.drop_files()
+        impl, spec = [[impl_u], []], [[spec_u], []]
+        if _is_err(impl_u):
+            key, d = 'high-offset/unit-raises-%s' % impl_u[1], (impl_u, '...')
+        else:
+            key, d = classify(impl, spec)
+            key = None if key is None else 'high-offset/' + str(key)
+        ctx.bump('kind', kind)
+        ctx.bump('stream_kind', 'sparse file >= 4 GiB')
+        ctx.bump('high_offset_unit_at', 'below 2**32' if base < 2 ** 32 else ('at 2**32' if base == 2 ** 32 else 'above 2**32'))
+        ctx.record(kind, w, impl=impl, spec=spec, model=None, in_domain=all(wf), nontrivial=True, key=key,
+                   detail=None if d is None else {'first_difference': list(d), 'unit_offset': base})
 
 
 def _evaluate(ctx, cases, S):
